@@ -226,14 +226,67 @@ Definition explicit_apart (h : list iop) : Prop := forall ws ev, In (IEvent ws e
 Definition explicit_free (h : list iop) : Prop :=
   forall ws ev, In (IEvent ws ev) h -> Forall (fun r => is_raw (r_id r) = true) (e_arg ev ++ e_creates ev).
 
+(* ---------- singletons: the slot guard and the log ---------- *)
+(* every logged ID is the ID of a created record or lies above the singleton band (argument rows) *)
+Definition logq (w : wstate) : Prop := Forall (fun x => In x (w_recs w) \/ c04_max_singleton_id < x) (w_log w).
+
+Lemma step_event_slot au ps w ev w' ev' rep :
+  step_event_gen au ps w ev = (w', Accepted ev' rep) ->
+  slot_free (w_recs w) ev = true /\ w_recs w' = w_recs w ++ ids (e_creates ev').
+Proof.
+  unfold step_event_gen. destruct (accepts w ev) eqn:AC; [|discriminate].
+  unfold accepts in AC. apply andb_true_iff in AC. destruct AC as [_ SF].
+  destruct (regenerate_gen au ps (w_next w) ev) as [[g' e'] r']. intros E. inversion E; subst. cbn. auto.
+Qed.
+
+Lemma step_event_logq au ps K w ev w' o :
+  inv (N.of_nat (ev_rows ev) + K) w ->
+  Forall (fun x => x + 1 + N.of_nat (ev_rows ev) + K < two64) (ev_ids ev) ->
+  Forall single_ok (e_creates ev) -> explicit_above_singletons ev -> logq w ->
+  step_event_gen au ps w ev = (w', o) -> logq w'.
+Proof.
+  intros I0 B0 HS0 HX0 Q E. destruct o as [|ev' rep].
+  - unfold step_event_gen in E. destruct (accepts w ev).
+    + destruct (regenerate_gen au ps (w_next w) ev) as [[a b] c]. discriminate.
+    + inversion E; subst. exact Q.
+  - destruct (step_event_accepts au ps w ev _ _ _ E) as (Hv & RG & LOG).
+    destruct (step_event_slot au ps w ev _ _ _ E) as (_ & RECS).
+    pose proof I0 as (A0 & _ & _).
+    pose proof (step_room K w ev I0 B0) as RM.
+    destruct (regenerate_passes au ps K (w_next w) ev Hv A0 RM _ _ _ RG) as (pa & pc & g1 & repc & P).
+    unfold logq. rewrite LOG, RECS. unfold event_ids. apply Forall_app. split; [|apply Forall_app; split].
+    + eapply Forall_impl; [|exact Q]. cbn. intros x [I|G]; [left; apply in_or_app; left; exact I|right; exact G].
+    + apply Forall_forall. intros x I. left. apply in_or_app. right. exact I.
+    + apply Forall_forall. intros x I. right.
+      rewrite (ps_arg _ _ _ _ _ _ _ _ _ _ _ _ P) in I. unfold ids in I. rewrite map_map in I. apply in_map_iff in I.
+      destruct I as [r [EQ I]]. rewrite (stored_arg_id au ps K (w_next w) ev Hv A0 _ _ _ pa pc g1 repc P r I) in EQ. subst x.
+      pose proof layout_singletons_reserved as [_ LS].
+      destruct (is_raw (r_id r)) eqn:R.
+      * assert (J : In (r_id r) (raw_ids (e_arg ev))) by (apply raw_ids_In; split; [unfold ids; apply in_map; exact I|exact R]).
+        destruct (pa_value au ps K (w_next w) ev _ _ _ pa pc g1 repc P _ J). lia.
+      * rewrite sub_cud_not_raw by exact R. unfold explicit_above_singletons in HX0. rewrite Forall_forall in HX0.
+        apply HX0; [apply in_or_app; left; exact I|exact R].
+Qed.
+
+Lemma assigned_fresh_map (m : N -> N) seen ins :
+  (forall r, In r ins -> is_raw (r_id r) = true -> ~ In (m (r_id r)) seen) ->
+  assigned_fresh seen ins (map (map_row m) ins) = true.
+Proof.
+  induction ins as [|r t IH]; intros H; cbn [assigned_fresh map]; [reflexivity|].
+  rewrite IH by (intros a Ha; apply H; right; exact Ha). rewrite andb_true_r. cbn [r_id map_row].
+  destruct (is_raw (r_id r)) eqn:R; [|reflexivity]. cbn [negb orb]. apply negb_true_iff. apply memb_false.
+  apply H; [left; reflexivity|exact R].
+Qed.
+
 Lemma model_satisfies_gen au ps : forall h K st,
   (forall ws, inv (N.of_nat (hist_rows h) + K) (st ws)) -> (forall ws, inv_u (st ws)) ->
   Forall (fun x => x + 1 + N.of_nat (hist_rows h) + K < two64) (hist_ids h) ->
   singles_ok h -> au = true \/ arg_ids_raw h -> ps = true \/ f12_free h ->
   explicit_apart h -> c04_sync_prepass = true \/ explicit_free h ->
+  c04_singleton_slot_guard = true -> (forall ws, logq (st ws)) ->
   satisfies_from (fun k => w_log (st k)) (model_trace_gen au ps st h) = true.
 Proof.
-  induction h as [|[ws0 ev|] t IH]; intros K st HI HU HB HS HA HF HX HP; [reflexivity| |].
+  induction h as [|[ws0 ev|] t IH]; intros K st HI HU HB HS HA HF HX HP SG HQ; [reflexivity| |].
   - cbn [model_trace_gen satisfies_from]. cbn [hist_rows hist_ids] in HI, HB.
     apply Forall_app in HB. destruct HB as [HB1 HB2].
     assert (HS0 : Forall single_ok (e_creates ev)) by (apply (HS ws0 ev); left; reflexivity).
@@ -268,11 +321,15 @@ Proof.
       - rewrite upd_other by exact NE. apply HU. }
     assert (HB' : Forall (fun x => x + 1 + N.of_nat (hist_rows t) + K < two64) (hist_ids t)).
     { eapply Forall_impl; [|exact HB2]. cbn. intros; lia. }
-    specialize (IH K (upd st ws0 w') HI' HU' HB' HSt HAt HFt HXt HPt).
+    assert (HQ' : forall ws, logq (upd st ws0 w' ws)).
+    { intros ws. destruct (N.eq_dec ws ws0) as [->|NE].
+      - rewrite upd_same. exact (step_event_logq au ps _ (st ws0) ev w' o I0 B0 HS0 HX0 (HQ ws0) E).
+      - rewrite upd_other by exact NE. apply HQ. }
+    specialize (IH K (upd st ws0 w') HI' HU' HB' HSt HAt HFt HXt HPt SG HQ').
     destruct o as [|ev' rep]; cbn [out_obs o_ok].
     + (* rejected: nothing stored *)
       assert (W : w' = st ws0).
-      { unfold step_event_gen in E. destruct (valid ev).
+      { unfold step_event_gen in E. destruct (accepts (st ws0) ev).
         - destruct (regenerate_gen au ps (w_next (st ws0)) ev) as [[a b] c]. discriminate.
         - inversion E. reflexivity. }
       rewrite <- IH. apply satisfies_from_ext. intros k. unfold upd. destruct (k =? ws0) eqn:EK; [|reflexivity].
@@ -302,6 +359,21 @@ Proof.
         - apply nodupb_NoDup. cbn [o_creates o_arg].
           exact (stored_ids_distinct_proved au ps _ ev _ ev' rep Hv HS0 A0 RM0 HX0 (HP0 _) RG). }
       rewrite FR. cbn [andb o_creates o_arg].
+      assert (AF : assigned_fresh (w_log (st ws0)) (e_arg ev ++ e_creates ev) (e_arg ev' ++ e_creates ev') = true).
+      { destruct (substitution_proved au ps _ ev _ ev' rep Hv HS0 A0 RM0 HF0 RG) as (m & _ & _ & SA & SC & _ & _ & REP & SING & _).
+        rewrite SA, SC, <- map_app. apply assigned_fresh_map. intros r I R J.
+        assert (GEN : In (r_id r, m (r_id r)) rep -> False).
+        { intros IN. apply (in_map snd) in IN. cbn in IN. pose proof (chain_bounds _ _ _ CH _ IN) as [L _].
+          pose proof (HU ws0) as U. unfold inv_u in U. rewrite Forall_forall in U. specialize (U _ J). lia. }
+        apply in_app_or in I. destruct I as [I|I]; [apply GEN; apply REP; [left; exact I|exact R]|].
+        destruct (N.eq_dec (r_single r) 0) as [Z|NZ]; [apply GEN; apply REP; [right; split; assumption|exact R]|].
+        rewrite (SING r I R NZ) in J.
+        destruct (step_event_slot au ps (st ws0) ev _ _ _ E) as (SF & _).
+        unfold slot_free, slot_free_gen in SF. rewrite SG in SF. rewrite forallb_forall in SF. specialize (SF r I).
+        apply N.eqb_neq in NZ. rewrite NZ in SF. cbn in SF. apply negb_true_iff in SF. apply memb_false in SF.
+        pose proof (HQ ws0) as Q. unfold logq in Q. rewrite Forall_forall in Q. destruct (Q _ J) as [IR|GT]; [contradiction|].
+        rewrite Forall_forall in HS0. apply N.eqb_neq in NZ. destruct (HS0 r I) as [Z|[_ LE]]; [congruence|lia]. }
+      rewrite AF. cbn [andb].
       rewrite <- IH. apply satisfies_from_ext. intros k. unfold upd. destruct (k =? ws0) eqn:EK; [|reflexivity].
       rewrite LOG. unfold event_ids. reflexivity.
   - cbn [model_trace_gen satisfies_from step_gen]. cbn [hist_rows hist_ids] in HI, HB.
@@ -315,20 +387,23 @@ Proof.
     assert (HXt : explicit_apart t) by (intros a b I; apply (HX a b); right; exact I).
     assert (HPt : c04_sync_prepass = true \/ explicit_free t).
     { destruct HP as [PP|FR]; [left; exact PP|right]. intros a b I. apply (FR a b). right. exact I. }
-    rewrite <- (IH K (fun k => recover (st k)) HI' HU' HB HSt HAt HFt HXt HPt). apply satisfies_from_ext. intros k. reflexivity.
+    assert (HQ' : forall ws, logq (recover (st ws))) by (intros ws; exact (HQ ws)).
+    rewrite <- (IH K (fun k => recover (st k)) HI' HU' HB HSt HAt HFt HXt HPt SG HQ'). apply satisfies_from_ext. intros k. reflexivity.
 Qed.
 
 Theorem model_satisfies_proved : forall au ps h,
   bounded h -> singles_ok h -> au = true \/ arg_ids_raw h -> ps = true \/ f12_free h ->
   explicit_apart h -> c04_sync_prepass = true \/ explicit_free h ->
+  c04_singleton_slot_guard = true ->
   satisfies (model_trace_gen au ps st_init h) = true.
 Proof.
-  intros au ps h [B1 B2] HS HA HF HX HP. unfold satisfies.
+  intros au ps h [B1 B2] HS HA HF HX HP SG. unfold satisfies.
   rewrite (satisfies_from_ext _ (fun _ => []) (fun k => w_log (st_init k))) by reflexivity.
   apply (model_satisfies_gen au ps h 0); try assumption.
   - intros ws. apply init_inv. lia.
   - intros ws. apply (init_inv 0). pose proof layout_user_fits. lia.
   - eapply Forall_impl; [|exact B2]. cbn. intros; lia.
+  - intros ws. constructor.
 Qed.
 
 (* the model agrees with its own trace (sanity of `agrees`: it accepts exactly what the model does) *)
@@ -412,7 +487,7 @@ Proof.
     intros ws. destruct (N.eq_dec ws ws0) as [->|NE]; [rewrite upd_same|rewrite upd_other by exact NE; apply HN].
     destruct o as [|ev' rep].
     + assert (W : w' = st ws0).
-      { unfold step_event_gen in E. destruct (valid ev).
+      { unfold step_event_gen in E. destruct (accepts (st ws0) ev).
         - destruct (regenerate_gen au ps (w_next (st ws0)) ev) as [[a b] c]. discriminate.
         - inversion E. reflexivity. }
       rewrite W. apply HN.
@@ -517,7 +592,7 @@ Proof.
   - cbn [valid_only]. destruct (valid ev) eqn:V.
     + cbn [run_gen fold_left]. apply IH.
     + cbn [run_gen fold_left]. intros k. rewrite <- (IH st k). apply run_gen_ext.
-      intros j. cbn [step_gen]. unfold step_event_gen. rewrite V. cbn [fst]. unfold upd.
+      intros j. cbn [step_gen]. unfold step_event_gen, accepts. rewrite V. cbn [andb fst]. unfold upd.
       destruct (N.eqb_spec j ws) as [->|NE]; reflexivity.
   - cbn [valid_only run_gen fold_left]. apply IH.
 Qed.
@@ -615,3 +690,14 @@ Qed.
 Definition few_rowsb (h : list iop) : bool := c04_max_record_id + 1 + N.of_nat (hist_rows h) <? two64.
 Lemma few_rowsb_sound h : few_rowsb h = true -> few_rows h.
 Proof. unfold few_rowsb, few_rows. lia. Qed.
+
+(* the slot guard of validEvent: an accepted event never creates a singleton whose ID a created record already holds *)
+Theorem singleton_slot_proved : forall au ps w ev w' ev' rep,
+  c04_singleton_slot_guard = true ->
+  step_event_gen au ps w ev = (w', Accepted ev' rep) ->
+  forall r, In r (e_creates ev) -> r_single r <> 0 -> ~ In (r_single r) (w_recs w).
+Proof.
+  intros au ps w ev w' ev' rep SG E r I NZ J. destruct (step_event_slot au ps w ev _ _ _ E) as (SF & _).
+  unfold slot_free, slot_free_gen in SF. rewrite SG in SF. rewrite forallb_forall in SF. specialize (SF r I).
+  apply N.eqb_neq in NZ. rewrite NZ in SF. cbn in SF. apply negb_true_iff in SF. apply memb_false in SF. contradiction.
+Qed.
